@@ -89,6 +89,22 @@ func (c *Ctx) ruleDispatchFor(only map[string]bool) {
 		}
 		callT := c.eng.tt.mk(Term{K: "V", V: call})
 		var problems []string
+		// the closure consulted is the receiver's own: on no path does its value come from another
+		// object's configuration (the comparand's, a nested element's)
+		if !fa.allHold(call, func(s *State) bool {
+			ct := fa.term(s, call.Call.Value)
+			if !termMentionsParam(ct, 0) {
+				return false
+			}
+			for k := 1; k < len(fn.Params); k++ {
+				if termMentionsParam(ct, k) {
+					return false
+				}
+			}
+			return true
+		}) {
+			problems = append(problems, "the closure invoked is not (only) the one installed on the receiver itself")
+		}
 		nClosure, nDefault, nEarly, nUninit := 0, 0, 0, 0
 		_ = nUninit
 		for _, rs := range fa.rets {
